@@ -98,8 +98,10 @@ def run(ctx):
                 d, o = repl[0]
                 cn = [c.a["name"] for c in o.call_nodes()]
                 gs = prim.dominating_guards(pa, d[0])
-                only_dot = any(gd["pred"].strip().k == "call" and gd["pred"].strip().a["name"] == "eq" and gd["bool"] is True and any(c.get("v") == "." for c in gd["pred"].consts()) for gd in gs) and \
-                    any(gd["pred"].strip().k == "bin" and gd["pred"].strip().a == "Eq" and gd["bool"] is True and any(c.get("v") == 1 for c in gd["pred"].consts()) for gd in gs)
+                atoms = prim.norm_guards(gs)
+                is_c = lambda v: (lambda x: x.strip().k == "const" and x.strip().a.get("v") == v)
+                anyo = lambda x: True
+                only_dot = prim.atom_holds(atoms, "eq", anyo, is_c(".")) is not None and prim.atom_holds(atoms, "eq", lambda x: any(c.a["name"] == "len" for c in x.call_nodes()), is_c(1)) is not None
                 ok = set(cn) <= {"to_vec", "clone", "to_owned", "deref", "as_ref", "into"} and only_dot
             ctx.ob("R1", "files0-replaces-only-implicit-dot", ok, "the -files0-from list must replace the starting points only when they are just the implicit '.', unchanged and in order (otherwise: error 'file operands cannot be combined')", fn=pa, how="local writers + dominating guards")
     # ---- R2 do_find -------------------------------------------------------------------------------------------
